@@ -245,6 +245,24 @@ def sharing_outside_daglish_case(_=None):
           'object was one object before dump_json/load_json and is several objects after', name)
     if canon.canon(back.x) != canon.canon(cfg.x):
       bad('argument x differs after the round trip', name)
+  # several instances of one dict-based registered type whose attributes were assigned in
+  # different orders: every attribute keeps its own value
+  def reordered(items, more):
+    b = Box.__new__(Box)
+    b.more = more
+    b.items = items
+    return b
+  n += 1
+  cfg = fdl.Config(pool.fk, Box(items=10.0, more=0.5), b=reordered('I', 'M'), c=[Box(items=1, more=2), reordered(3, 4)])
+  try:
+    back = ser.load_json(ser.dump_json(cfg))
+    got = [vars(back.x), vars(back.b), vars(back.c[0]), vars(back.c[1])]
+    want = [vars(cfg.x), vars(cfg.b), vars(cfg.c[0]), vars(cfg.c[1])]
+    if got != want:
+      bad(f'instances of a dict-based registered type with differently ordered attributes: attribute values '
+          f'changed by the round trip: {got} vs {want}', 'attribute-order')
+  except Exception as e:   # pylint: disable=broad-except
+    bad(f'dict-based objects: {type(e).__name__}: {str(e)[:80]}', 'attribute-order')
   return n, n, viols, [dict(scenario='sharing between daglish containers and serialization-only nodes', cases=n)]
 
 
